@@ -26,13 +26,15 @@ use vstd::std_specs::cmp::OrdSpec;
 //@map /ecdsa::Signature::from_compact\(&s\.signature\.0\)/ => vx_sig_from_wire(s)
 //@map /EcdsaSighashType::All as u8/ => vx_sighash_all()
 //@map /EcdsaSighashType::SinglePlusAnyoneCanPay as u8/ => vx_sighash_single_acp()
-//@map /(\w+)\.map\(\|s\| DisclosedSecret\(s\[\.\.\]\.try_into\(\)\.(?:unwrap|vx_expect)\(\)\)\)/ => vx_disclose(\1)
+//@map /(\w+)(?:\.clone\(\))?\.map\(\|s\| DisclosedSecret\(s\[\.\.\]\.try_into\(\)\.(?:unwrap|vx_expect)\(\)\)\)/ => vx_disclose(\1)
 //@map /PubKey\(next_per_commitment_point\.serialize\(\)\)/ => vx_wire_of_point(next_per_commitment_point)
+//@map /PubKey\(point\.serialize\(\)\)/ => vx_wire_of_point(point)
 verus! {
 
 //@@TAGS
 
 //@const vls-protocol/src/msgs.rs :: PROTOCOL_VERSION_REVOKE
+//@const vls-protocol/src/msgs.rs :: PROTOCOL_VERSION_NO_SECRET
 impl Status { #[verifier::external_body] pub fn invalid_argument<B>(msg: B) -> Status { unimplemented!() } }
 #[verifier::external_body] pub fn vx_sighash_single_acp() -> (r: u8) { unimplemented!() }
 
@@ -149,6 +151,7 @@ pub uninterp spec fn chan_signed_cp2(c: VxChanView, point: PublicKey, n: u64, fe
 pub uninterp spec fn chan_validated_cp_revocation(c: VxChanView, n: u64, secret: SecretKey, r: Result<(), Status>, after: VxChanView) -> bool;
 pub uninterp spec fn chan_signed_holder2(c: VxChanView, n: u64, r: Result<Signature, Status>, after: VxChanView) -> bool;
 pub uninterp spec fn chan_point(c: VxChanView, n: u64, r: Result<PublicKey, Status>) -> bool;
+pub uninterp spec fn chan_secret(c: VxChanView, n: u64, r: Result<SecretKey, Status>) -> bool;
 pub uninterp spec fn chan_validated_holder(c: VxChanView, n: u64, feerate: u32, to_local: u64, to_remote: u64, offered: Seq<HTLCInfo2>, received: Seq<HTLCInfo2>,
     sig: Signature, htlc_sigs: Seq<Signature>, after: VxChanView) -> bool;
 pub uninterp spec fn chan_revoked(c: VxChanView, n: u64, r: Result<(PublicKey, Option<SecretKey>), Status>, after: VxChanView) -> bool;
@@ -174,6 +177,8 @@ impl VxChan {
         ensures chan_signed_holder2(old(self)@, commitment_number, r, final(self)@) { unimplemented!() }
     #[verifier::external_body]
     pub fn get_per_commitment_point(&self, commitment_number: u64) -> (r: Result<PublicKey, Status>) ensures chan_point(self@, commitment_number, r) { unimplemented!() }
+    #[verifier::external_body]
+    pub fn get_per_commitment_secret(&self, commitment_number: u64) -> (r: Result<SecretKey, Status>) ensures chan_secret(self@, commitment_number, r) { unimplemented!() }
     #[verifier::external_body]
     pub fn validate_holder_commitment_tx_phase2(&mut self, commitment_number: u64, feerate_per_kw: u32, to_holder_value_sat: u64, to_counterparty_value_sat: u64,
         offered_htlcs: Vec<HTLCInfo2>, received_htlcs: Vec<HTLCInfo2>, counterparty_commit_sig: &Signature, counterparty_htlc_sigs: &Vec<Signature>) -> (r: Result<(), Status>)
@@ -232,6 +237,7 @@ pub struct SignLocalCommitmentTx2 { pub commitment_number: u64 }
 pub struct ValidateCommitmentTx2 { pub commitment_number: u64, pub feerate: u32, pub to_local_value_sat: u64, pub to_remote_value_sat: u64, pub htlcs: VxHtlcArray,
     pub signature: BitcoinSignature, pub htlc_signatures: VxSigArray }
 pub struct RevokeCommitmentTx { pub commitment_number: u64 }
+pub struct GetPerCommitmentPoint { pub commitment_number: u64 }
 pub struct SignMutualCloseTx2 { pub to_local_value_sat: u64, pub to_remote_value_sat: u64, pub local_script: Octets, pub remote_script: Octets, pub local_wallet_path_hint: VxPathHint }
 pub struct ChannelHandler { pub node: VxNodeH, pub channel_id: ChannelId, pub protocol_version: u32, pub rest: VxHandlerRest }
 
@@ -244,6 +250,8 @@ pub uninterp spec fn reply_revocation_validated() -> VxReply;
 pub uninterp spec fn reply_validate_commitment(next_point: PubKey, old_secret: Option<DisclosedSecret>) -> VxReply;
 pub uninterp spec fn reply_revoke_commitment(next_point: PubKey, old_secret: DisclosedSecret) -> VxReply;
 pub uninterp spec fn reply_sign_tx(sig: Signature) -> VxReply;
+pub uninterp spec fn reply_point(point: PubKey, secret: Option<DisclosedSecret>) -> VxReply;
+#[verifier::external_body] pub fn vx_reply_point(point: PubKey, secret: Option<DisclosedSecret>) -> (r: VxReply) ensures r == reply_point(point, secret) { unimplemented!() }
 #[verifier::external_body] pub fn vx_reply_validate_commitment(next_point: PubKey, old_secret: Option<DisclosedSecret>) -> (r: VxReply) ensures r == reply_validate_commitment(next_point, old_secret) { unimplemented!() }
 #[verifier::external_body] pub fn vx_reply_revoke_commitment(next_point: PubKey, old_secret: DisclosedSecret) -> (r: VxReply) ensures r == reply_revoke_commitment(next_point, old_secret) { unimplemented!() }
 #[verifier::external_body] pub fn vx_reply_sign_tx(sig: BitcoinSignature) -> (r: VxReply) ensures forall|s: Signature| sig == wire_of_sig(s) ==> r == reply_sign_tx(s) { unimplemented!() }
@@ -433,6 +441,37 @@ impl ChannelHandler {
             && r->Ok_0 == reply_sign_tx(sig),
 //@sub /(?s)self\.node\.with_channel\(&self\.channel_id, \|chan\| \{.*?\n\s*\}\)\?/ => self.vx_with_channel_close2(&m, local_wallet_path_hint)?
 //@sub /Ok\(Box::new\(msgs::SignTxReply \{ signature: (.*?) \}\)\)/ => Ok(vx_reply_sign_tx(\1))
+//@end
+
+// ------------------------------------------------ GetPerCommitmentPoint (the old protocol's implicit revocation)
+//@fn vls-protocol-signer/src/handler.rs :: impl Handler for ChannelHandler :: do_handle closure=1 after="Message::GetPerCommitmentPoint\(m\) =>" as=get_per_commitment_point_closure props=C01
+//@sig fn get_per_commitment_point_closure(&self, base: &mut VxChan, commitment_number: u64) -> (r: Result<(PublicKey, Option<SecretKey>), Status>)
+    ensures
+        final(base)@ == old(base)@,
+        r.is_ok() && r->Ok_0.1.is_some() ==> self.protocol_version < PROTOCOL_VERSION_NO_SECRET && commitment_number >= 2
+            && chan_secret(old(base)@, (commitment_number - 2) as u64, Ok(r->Ok_0.1->Some_0)),
+        r.is_ok() ==> chan_point(old(base)@, commitment_number, Ok(r->Ok_0.0)),
+//@end
+
+    pub open spec fn get_point_done(&self, n: u64, r: Result<(PublicKey, Option<SecretKey>), Status>) -> bool {
+        exists|c0: VxChanView| node_channel(self.node, self.channel_id, c0) && #[trigger] chan_point(c0, n, Ok(r->Ok_0.0))
+            && (r->Ok_0.1.is_some() ==> self.protocol_version < PROTOCOL_VERSION_NO_SECRET && n >= 2 && chan_secret(c0, (n - 2) as u64, Ok(r->Ok_0.1->Some_0)))
+    }
+    #[verifier::external_body]
+    pub fn vx_with_channel_base_get_point(&self, commitment_number: u64) -> (r: Result<(PublicKey, Option<SecretKey>), Status>)
+        ensures r.is_ok() ==> self.get_point_done(commitment_number, r)
+    { unimplemented!() }
+
+//@fn vls-protocol-signer/src/handler.rs :: impl Handler for ChannelHandler :: do_handle arm="Message::GetPerCommitmentPoint\(m\)" as=arm_get_per_commitment_point props=C01
+//@sig fn arm_get_per_commitment_point(&self, m: GetPerCommitmentPoint) -> (r: Result<VxReply, Status>)
+    ensures
+        // a secret in the reply is the answer of this handler's channel for exactly n - 2, n the message's number, given only
+        // under the old protocol (the channel bounds its release by n - 2 + 2 <= next_holder_commit_num, unit channel_holder)
+        r.is_ok() ==> exists|p: PublicKey, os: Option<SecretKey>| #[trigger] self.get_point_done(m.commitment_number, Ok((p, os)))          //[C01.handler.get-point-arm-secret-is-the-channels-answer-for-n-minus-2]
+            && r->Ok_0 == reply_point(wire_of_point(p), if os.is_some() { Some(wire_of_secret(os->Some_0)) } else { None }),
+//@sub /(?s)self\.node\.with_channel_base\(&self\.channel_id, \|base\| \{.*?\n\s*\}\);/ => self.vx_with_channel_base_get_point(commitment_number);
+//@sub /core::result::Result<\(PublicKey, Option<SecretKey>\), status::Status>/ => Result<(PublicKey, Option<SecretKey>), Status>
+//@sub /(?s)Ok\(Box::new\(msgs::GetPerCommitmentPointReply \{\s*point: (.*?),\s*secret: (\w+),\s*\}\)\)/ => Ok(vx_reply_point(\1, \2))
 //@end
 
 } // impl
